@@ -150,7 +150,7 @@ class Ctx:
             shutil.rmtree(self.tmp, ignore_errors=True)
 
     # ---- drivers --------------------------------------------------------
-    def begin_case(self):
+    def begin_case(self, case=None):
         from vf import boot
         self.evaluations += 1
         if boot.R is not None:
@@ -165,6 +165,8 @@ class Ctx:
             boot.R.rightNow = boot.EPOCH
             boot.set_thread_mode(False)
         boot.reseed(0)
+        if isinstance(case, dict) and case.get("hsalt"):
+            boot.set_hash_salt(case["hsalt"])      # permutes the iteration order of sets of shares/servers/observers inside the code under test
 
     def drive(self, strategy, n, run_case, shrink=True):
         """Hypothesis-driven search.  `strategy` yields JSON-able case dicts;
@@ -186,7 +188,7 @@ class Ctx:
                   suppress_health_check=list(HealthCheck), verbosity=hypothesis.Verbosity.quiet)
         @given(strategy)
         def t(case):
-            ctx.begin_case()
+            ctx.begin_case(case)
             try:
                 try:
                     run_case(case, ctx)
@@ -220,7 +222,7 @@ class Ctx:
         """Plain loop over explicit cases (exhaustive enumeration / corpus).
         Stops at the first violation of the shard."""
         for case in cases:
-            self.begin_case()
+            self.begin_case(case)
             try:
                 try:
                     run_case(case, self)
@@ -445,7 +447,7 @@ def run_replay(prop_id, path):
     case = blob.get("case", blob)
     ctx = Ctx(prop_id, "quick", 0)
     try:
-        ctx.begin_case()
+        ctx.begin_case(case)
         try:
             try:
                 mod.run_case(case, ctx)
